@@ -1270,13 +1270,15 @@ class FileStorage(
             gc = self._pack_gc
 
         oldpath = self._file_name + ".old"
-        if os.path.exists(oldpath):
-            os.remove(oldpath)
-        if self.blob_dir and os.path.exists(self.blob_dir + ".old"):
-            remove_committed_dir(self.blob_dir + ".old")
-
         have_commit_lock = False
         try:
+            # (inside the try: if the leftovers of an earlier pack cannot
+            # be removed, the pack flag must not stay set)
+            if os.path.exists(oldpath):
+                os.remove(oldpath)
+            if self.blob_dir and os.path.exists(self.blob_dir + ".old"):
+                remove_committed_dir(self.blob_dir + ".old")
+
             pack_result = None
             try:
                 pack_result = self.packer(self, referencesf, stop, gc)
